@@ -181,5 +181,18 @@ def attachmentWith (e : Env) (vendor conformsTo : Option Bytes) : Res Env :=
     | [a] => .ok a
     | _ => .err "AmbiguousAttachment"
 
+/-! ### the `Attachments` container (`src/extension/attachment/attachments.rs`): a `HashMap<Digest, Envelope>`,
+modelled as the list of its values in whatever order the map yields them -/
+
+/-- `Attachments::try_from_envelope`: the validated attachment assertions of the envelope -/
+def attachmentsOfEnvelope (e : Env) : Res (List Env) := attachmentsWith h e none none
+
+/-- `Attachments::add_to_envelope`: `add_assertion_envelope(..).unwrap()` for every value -/
+def addToEnvelope (atts : List Env) (e : Env) : Res Env :=
+  match addAll h e atts with
+  | .ok r => .ok r
+  | .err x => .panic ("attachments.rs:add_to_envelope:unwrap:" ++ x)
+  | .panic x => .panic x
+
 end
 end EnvVerif
